@@ -104,14 +104,15 @@ func (c *config) Decode(b []byte) error {
 }
 
 func (c *config) update(changes *config2.StringMap) error {
-	for key, value := range changes.Fields {
+	for _, key := range config2.SortedKeys(changes.Fields) {
+		value := changes.Fields[key]
 		switch key {
 		case Settings[MinLock]:
 			if sbValue, err := strconv.ParseFloat(value, 64); err != nil {
 				return fmt.Errorf("value %v cannot be converted to currency.Coin, "+
 					"failing to set config key %s", value, key)
 			} else {
-				cMinLock, err := currency.MultFloat64(1e10, sbValue)
+				cMinLock, err := config2.ParseZCN(sbValue)
 				if err != nil {
 					return err
 				}
@@ -154,7 +155,9 @@ func (c *config) update(changes *config2.StringMap) error {
 			}
 
 		default:
-			return c.setCostValue(key, value)
+			if err := c.setCostValue(key, value); err != nil {
+				return err
+			}
 		}
 	}
 	return nil
@@ -229,6 +232,10 @@ func (vsc *VestingSmartContract) updateConfig(
 	}
 
 	if err := conf.update(update); err != nil {
+		return "", common.NewError("update_config", err.Error())
+	}
+
+	if err = conf.validate(); err != nil {
 		return "", common.NewError("update_config", err.Error())
 	}
 
